@@ -251,7 +251,11 @@ def work(cfg):
                          "log": [list(e) for e in s.log]})
             return len(viol) >= 3
         return False
-    # determinism: the default schedule twice
+    # determinism: the default schedule twice (opcode-level tracing first needs the adaptive
+    # interpreter to settle: the first executions of a code object report other instruction offsets)
+    if cfg[4]:
+        for _ in range(4):
+            run_one(cfg, [])
     a = run_one(cfg, [])
     b = run_one(cfg, [])
     if a.log != b.log or a.points != b.points:
